@@ -7,20 +7,21 @@ use serde_json::{json, Value};
 use skrifa::color::{Brush, ColorGlyphFormat, ColorPainter, CompositeMode, PaintCachedColorGlyph, PaintError, Transform};
 use skrifa::prelude::LocationRef;
 use skrifa::MetadataProvider;
-use write_fonts::tables::colr::{BaseGlyphList, BaseGlyphPaint, Colr, LayerList, Paint};
+use write_fonts::tables::colr::{BaseGlyphList, BaseGlyphPaint, Clip, ClipBox, ClipList, Colr, LayerList, Paint};
 use write_fonts::FontBuilder;
 
 #[derive(Clone, Debug)]
 pub struct Node {
     pub kind: String,
     pub kids: Vec<usize>, // 1-based
+    pub clip: bool,       // the base glyph with this root paint has a clip box
 }
 
 pub fn nodes_from_json(v: &Value) -> Vec<Node> {
     v.as_array()
         .unwrap()
         .iter()
-        .map(|n| Node { kind: n["kind"].as_str().unwrap().to_string(), kids: n["kids"].as_array().unwrap().iter().map(|k| k.as_u64().unwrap() as usize).collect() })
+        .map(|n| Node { kind: n["kind"].as_str().unwrap().to_string(), kids: n["kids"].as_array().unwrap().iter().map(|k| k.as_u64().unwrap() as usize).collect(), clip: n.get("clip").and_then(|c| c.as_bool()).unwrap_or(false) })
         .collect()
 }
 
@@ -81,6 +82,14 @@ pub fn build_colr_font(nodes: &[Node]) -> Result<Vec<u8>, String> {
     colr.base_glyph_list = Some(BaseGlyphList::new(records.len() as u32, records)).into();
     // always present: Colr::compute_version looks at the layer list
     colr.layer_list = Some(LayerList::new(layer_paints.len() as u32, layer_paints)).into();
+    let clips: Vec<Clip> = bases
+        .iter()
+        .filter(|t| nodes[**t - 1].clip)
+        .map(|t| Clip::new(gid_of(*t), gid_of(*t), ClipBox::format_1(FWord::new(0), FWord::new(0), FWord::new(100 + *t as i16), FWord::new(100))))
+        .collect();
+    if !clips.is_empty() {
+        colr.clip_list = Some(ClipList::new(1, clips.len() as u32, clips)).into();
+    }
     let colr_bytes = write_fonts::dump_table(&colr).map_err(|e| format!("COLR does not compile: {e}"))?;
     let mut fb = FontBuilder::new();
     fb.add_raw(Tag::new(b"COLR"), colr_bytes);
